@@ -15,6 +15,7 @@ import numpy as np
 from vlib import core
 from vlib.refs import c17_refs as R
 from vlib.rngscript import Scripted
+from vlib.refs import stencils as S
 
 PROPERTY = "C17"
 RULE = ("discrete option axes (problem, PSF kind x boundary condition, legacy PSF kind, field type, map, observation "
@@ -54,6 +55,14 @@ PHANTOMS_2D = ("satellite", "shepp_logan", "grains", "cat", "camera")
 def _spell(r, s):
     return r.choice([s, s.capitalize(), s.upper()])
 
+USE_OPS = ("forward_exact", "logd", "gradient", "MAP", "ML", "sample", "sample_exp")
+
+def _use(r):
+    """'use' history applied to the constructed problem before all monitors are evaluated a second time"""
+    ops = [[op, r.choice([1, 2])] for op in USE_OPS if r.random() < 0.6]
+    r.shuffle(ops)
+    return ops
+
 def _noise(r):
     nt = r.choice(["gaussian", "gaussian", "scaledgaussian"])
     spelled = {"gaussian": r.choice(["gaussian", "Gaussian"]), "scaledgaussian": r.choice(["scaledgaussian", "scaledGaussian"])}[nt]
@@ -81,7 +90,8 @@ def _d1_case(r, kind, bc):
     c["phantom"], c["phantom_param"] = _phantom1(r, dim)
     c["phantom_spelled"] = _spell(r, c["phantom"])
     c["noise"], c["noise_spelled"], c["noise_std"] = _noise(r)
-    c["prior"] = r.choice([None, None, "gauss", "laplace"])
+    c["prior"] = r.choice([None, None, "gauss", "gauss", "laplace", "gmrf"])
+    c["use"] = _use(r)
     c["np_seed"] = r.randrange(2 ** 31)
     return c
 
@@ -94,7 +104,8 @@ def _legacy_case(r, kind):
     c["phantom"], c["phantom_param"] = _phantom1(r, dim)
     c["phantom_spelled"] = _spell(r, c["phantom"])
     c["noise"], c["noise_spelled"], c["noise_std"] = _noise(r)
-    c["prior"] = r.choice([None, None, "gauss", "laplace"])
+    c["prior"] = r.choice([None, None, "gauss", "gauss", "laplace", "gmrf"])
+    c["use"] = _use(r)
     c["np_seed"] = r.randrange(2 ** 31)
     return c
 
@@ -110,7 +121,8 @@ def _d2_case(r, kind, bc, tier):
         c["psf_spelled"] = _spell(r, kind)
     c["phantom"] = r.choice(["nd_same", "nd_vec", "nd_other", "nd_neg", "nd_zero", r.choice(PHANTOMS_2D)])
     c["noise"], c["noise_spelled"], c["noise_std"] = _noise(r)
-    c["prior"] = r.choice([None, None, "gauss"])
+    c["prior"] = r.choice([None, "gauss", "gauss", "gmrf"])
+    c["use"] = _use(r)
     c["np_seed"] = r.randrange(2 ** 31)
     return c
 
@@ -164,6 +176,7 @@ def _pde_case(r, problem, field):
         c["source"] = r.choice(["default", "recorded_default", "poly", "sin"])
     else:
         c["map"] = r.choice([None, None, "times10", "sqplus", "exp"])
+    c["use"] = _use(r)
     c["np_seed"] = r.randrange(2 ** 31)
     return c
 
@@ -195,7 +208,7 @@ def cases(tier, seed):
         out.append({"kind": "wang", "noise_std": r.choice([1, 0.5, 2.3, round(r.uniform(0.1, 5), 3), 1e-6]) if i else None,
                     "prior": r.choice([None, "gauss"]) if i else None,
                     "data": ([None, 0, 0.0, "zeros1", -2.5, round(r.uniform(-5, 5), 3)][i % 6] if i < 12 else r.choice([None, 0, 0.0, "zeros1", round(r.uniform(-5, 5), 3)])) if i else None,
-                    "np_seed": r.randrange(2 ** 31)})
+                    "use": _use(r), "np_seed": r.randrange(2 ** 31)})
     for fam in ("d1_gaussian", "d1_scaled", "d1_legacy", "d2_gaussian", "d2_scaled", "heat", "poisson", "abel"):
         for rep in range(1 if q else 6):
             out.append({"kind": "noise_stat", "family": fam, "reps": 24 if q else 40, "np_seed": r.randrange(2 ** 31),
@@ -277,6 +290,15 @@ def _make_prior(cuqi, kind, rs, dim, geometry=None):
         if geometry is not None:
             var = float(var[0])
         return cuqi.distribution.Gaussian(mean, var, name="x", **kw), (lambda x: R.gauss_logpdf_diag(x, mean, np.sqrt(var)))
+    if kind == "gmrf":       # first-order GMRF with zero boundary and a non-zero mean
+        mean, prec = rs.randn(dim) + 0.5, float(rs.uniform(0.5, 5.0))
+        pd = 1 if geometry is None else 2
+        N = dim if pd == 1 else int(round(math.sqrt(dim)))
+        D = S.diff_op(N, "zero", 1, pd)
+        Pm = D.T @ D
+        logdet = float(np.linalg.slogdet(Pm)[1])
+        ref = lambda x: float(0.5 * (dim * math.log(prec) + logdet) - 0.5 * dim * R.LOG2PI - 0.5 * prec * (_arr(x) - mean) @ Pm @ (_arr(x) - mean))
+        return cuqi.distribution.GMRF(mean, prec, bc_type="zero", name="x", **kw), ref
     if kind == "laplace":
         loc, scale = rs.randn(dim), float(rs.uniform(0.3, 2.0))
         return cuqi.distribution.Laplace(loc, scale, name="x", **kw), (lambda x: R.laplace_logpdf(x, loc, scale))
@@ -427,6 +449,107 @@ def _check_noise_and_consistency(ctx, P, rec):
         if not abs(pd - (ll_ref + lp_ref)) <= tol(ll_ref + lp_ref):
             ctx.violation("posterior_logd_mismatch", cfg, detail=f"posterior.logd={pd:.12g}, log-likelihood + log-prior = {ll_ref + lp_ref:.12g}")
 
+def _snapshot(tp, points):
+    snap = {"arrays": {}, "objects": {}, "values": []}
+    for nm in ("data", "exactData", "exactSolution"):
+        v = getattr(tp, nm, None)
+        snap["objects"][nm] = v
+        snap["arrays"][nm] = None if v is None else np.array(v, copy=True)
+    for nm, get in (("prior.mean", lambda: tp.prior.mean), ("prior.location", lambda: tp.prior.location),
+                    ("noise.cov", lambda: tp.likelihood.distribution.cov)):
+        try:
+            v = get()
+            if v is not None and not callable(v):
+                snap["arrays"][nm] = np.array(v.toarray() if hasattr(v, "toarray") else v, copy=True)
+        except Exception:  # noqa
+            pass
+    for x in points:
+        row = []
+        for f in (tp.likelihood.logd, tp.prior.logd, tp.posterior.logd):
+            try:
+                row.append(_scalar(f(x)))
+            except Exception:  # noqa
+                row.append(None)
+        snap["values"].append(row)
+    return snap
+
+def _use_history(ctx, tp, cfg, ops, points, allow, is_fun_exact=False, budget_s=4.0):
+    """Use the problem the way a user would, then the caller re-evaluates every monitor.  The operations themselves are
+    not judged (C15/C16/C02 do that) except that a repeated MAP/ML must reproduce itself; what is judged is that none of
+    them alters what the problem hands out (stored arrays bitwise, log-densities at fixed points)."""
+    import time
+    if not ops:
+        return
+    snap = _snapshot(tp, points)
+    t0 = time.time()
+    x0 = points[0]
+    last = {}
+    for op, reps in ops:
+        if op not in allow or time.time() - t0 > budget_s:
+            continue
+        for k in range(reps):
+            try:
+                if op == "forward_exact":
+                    if tp.exactSolution is None: break
+                    out = tp.model.forward(tp.exactSolution, is_par=False) if is_fun_exact else tp.model.forward(tp.exactSolution)
+                elif op == "logd":
+                    out = tp.posterior.logd(x0)
+                elif op == "gradient":
+                    out = tp.posterior.gradient(x0)
+                elif op == "MAP":
+                    out = tp.MAP(disp=False)
+                elif op == "ML":
+                    out = tp.ML(disp=False)
+                elif op == "sample":
+                    out = tp.sample_posterior(5)
+                elif op == "sample_exp":
+                    out = tp.sample_posterior(5, experimental=True)
+                ctx.count("use_op_done")
+                ctx.count("use_" + op)
+            except Exception as e:  # noqa - whether the operation is supported for this configuration is not C17's subject
+                ctx.count("use_op_not_supported")
+                ctx.refused("use " + op, e)
+                break
+            if op in ("MAP", "ML", "forward_exact", "logd", "gradient"):
+                now = _arr(out)
+                if op in last and now.shape == last[op].shape and np.all(np.isfinite(last[op])):
+                    ctx.count("repeat_call_checked")
+                    if _relerr(now, last[op], floor=1e-12) > 1e-6:
+                        ctx.violation("repeated_call_differs", {**cfg, "op": op}, detail=f"{op}() called again on the same problem returned a different result: rel diff {_relerr(now, last[op], floor=1e-12):.3g}")
+                last[op] = now
+    # --- nothing the problem hands out may have changed
+    for nm, before in snap["arrays"].items():
+        ctx.count("stored_array_bitwise_checked")
+        try:
+            now = {"data": lambda: tp.data, "exactData": lambda: tp.exactData, "exactSolution": lambda: tp.exactSolution,
+                   "prior.mean": lambda: tp.prior.mean, "prior.location": lambda: tp.prior.location,
+                   "noise.cov": lambda: tp.likelihood.distribution.cov}[nm]()
+        except Exception as e:  # noqa
+            ctx.violation("stored_array_changed_by_use", {**cfg, "what": nm}, detail=f"{nm} is no longer available after use: {e!r}")
+            continue
+        if before is None:
+            if now is not None:
+                ctx.violation("stored_array_changed_by_use", {**cfg, "what": nm}, detail=f"{nm} was None and is now {now!r}")
+            continue
+        nowa = np.asarray(now.toarray() if hasattr(now, "toarray") else now)
+        if nowa.shape != before.shape or not np.array_equal(nowa, before, equal_nan=True):
+            d = float(np.max(np.abs(nowa - before))) if nowa.shape == before.shape else float("nan")
+            ctx.violation("stored_array_changed_by_use", {**cfg, "what": nm},
+                          detail=f"{nm} changed after {[o for o, _ in ops if o in allow]}: max abs change {d:.3g}")
+        if nm in snap["objects"] and now is not snap["objects"][nm]:
+            ctx.violation("stored_object_replaced_by_use", {**cfg, "what": nm}, detail=f"problem.{nm} is a different object after use")
+    for x, row in zip(points, snap["values"]):
+        for nm, f, before in zip(("likelihood", "prior", "posterior"), (tp.likelihood.logd, tp.prior.logd, tp.posterior.logd), row):
+            if before is None or not np.isfinite(before):
+                continue
+            ctx.count("logd_unchanged_checked")
+            try:
+                now = _scalar(f(x))
+            except Exception as e:  # noqa
+                ctx.violation("logd_changed_by_use", {**cfg, "which": nm}, detail=f"{nm}.logd raises after use: {e!r}"); continue
+            if not abs(now - before) <= 1e-10 * (abs(before) + 1.0):
+                ctx.violation("logd_changed_by_use", {**cfg, "which": nm}, detail=f"{nm}.logd at a fixed point was {before:.12g} and is {now:.12g} after use")
+
 def _compare_forward(ctx, cfg, lib_forward, candidates, inputs, tol=1e-9, what="forward", opnorm=0.0):
     """candidates: [(mechanism or None, F)] - first entry is the documented operator. Returns the operator the
     library agrees with (None if it agrees with none); reports the corresponding violation."""
@@ -538,6 +661,12 @@ def _run_d1(case, ctx, cuqi, rs):
     P = _Problem(tp, cfg, F_eff, sigma, dim, dim, logprior_ref, [rs.randn(dim), _arr(tp.exactSolution) + 0.01 * rs.randn(dim)],
                  info_expect=(case["noise"], std), fun_of_exact=_arr(tp.exactSolution), degenerate_noise=degenerate, opnorm=opnorm)
     _check_noise_and_consistency(ctx, P, rec)
+    if case.get("use"):
+        _use_history(ctx, tp, cfg, case["use"], P.points, set(USE_OPS))
+        P.cfg = {**cfg, "stage": "after_use"}
+        _check_noise_and_consistency(ctx, P, rec)
+        if F_eff is not None:       # and the operator is still the documented one
+            _compare_forward(ctx, P.cfg, tp.model.forward, [(None, F_eff)], xs[:1], opnorm=opnorm)
     if F_eff is not None:
         ctx.nontrivial(f"{cfg['problem']}|{'legacy' if legacy else 'new'}|{kind}|{case['bc']}")
 
@@ -642,6 +771,13 @@ def _run_d2(case, ctx, cuqi, rs):
     P = _Problem(tp, cfg, F_eff, sigma, dim * dim, dim * dim, logprior_ref, [rs.randn(dim * dim), _arr(tp.exactSolution) + 0.01 * rs.randn(dim * dim)],
                  info_expect=(case["noise"], std), fun_of_exact=_arr(tp.exactSolution), degenerate_noise=degenerate, opnorm=opnorm)
     _check_noise_and_consistency(ctx, P, rec)
+    if case.get("use"):
+        allow = {"forward_exact", "logd", "gradient"} | ({"MAP", "ML"} if dim <= 10 else set()) | ({"sample", "sample_exp"} if dim <= 6 else set())
+        _use_history(ctx, tp, cfg, case["use"], P.points, allow)
+        P.cfg = {**cfg, "stage": "after_use"}
+        _check_noise_and_consistency(ctx, P, rec)
+        if F_eff is not None:
+            _compare_forward(ctx, P.cfg, tp.model.forward, [(None, F_eff)], xs[:1], tol=1e-9, opnorm=opnorm)
     if F_eff is not None:
         ctx.nontrivial(f"Deconvolution2D|{kind}|{case['bc']}|{cfg['psf_parity']}")
 
